@@ -96,7 +96,10 @@ def _selected_ok(prog, site):
     b = prog.body("melstf::state::melmint::" + sel)
     if b is None:
         return False
-    c = prog.closures_of(b)[0]
+    cls_ = prog.closures_of(b)
+    if not cls_:
+        return None          # the selection is not a filter_map closure (loop spelling): not decided here
+    c = cls_[0]
     somes = [bb for bb, e in q.result_blocks(c)["Some"]]
     finals = [(cb, ce) for cb, ce in q.call_exprs(c, "then_some") if any(ra[0] == cb and ra[1] == "T" for ra in q.ret_assignments(c))]
     i = q.const_val(site.operands[1])
@@ -170,6 +173,9 @@ def r1_inventory(ctx):
             r.violation("finding/" + key[:150], "reachable panic in the trusted base without a guard: %s (%s)" % (s.what, why), s.where())
         elif verdict == "selected":
             ok = _selected_ok(prog, s)
+            if ok is None:
+                r.undecided("site/" + key[:150], "the selection that guarantees enough outputs is not a filter_map closure: length guarantee not decided", s.where())
+                continue
             r.check(ok, "site/" + key[:150], "inv: " + why, "outputs[%s] in a pool worker is no longer protected by the selection's length test" % sig(s.operands[1]), s.where())
         elif verdict == "weights-capped":
             from rules.props import c05 as _c05
